@@ -46,6 +46,7 @@ type c19Input struct {
 	Stream RB     `json:"stream,omitempty"`
 	A      RB     `json:"a,omitempty"`
 	B      RB     `json:"b,omitempty"`
+	Block  int    `json:"block,omitempty"` // DiskBlockSize for this case (0 = the package default): buffer boundaries inside records
 }
 
 func errCode(err error) uint64 {
@@ -132,6 +133,10 @@ func c19ReadAll(db *nitro.Nitro, path string, ver int) (items [][]byte, ck uint3
 func c19Run(db *nitro.Nitro, tmp string, in *c19Input, sink *CaseSink) {
 	path := filepath.Join(tmp, "f")
 	os.Remove(path)
+	if in.Block > 0 {
+		defer func(old int) { nitro.DiskBlockSize = old }(nitro.DiskBlockSize)
+		nitro.DiskBlockSize = in.Block
+	}
 	switch in.Kind {
 	case "roundtrip":
 		var items [][]byte
@@ -242,7 +247,7 @@ func c19Gen(r *rand.Rand, i int) *c19Input {
 	switch {
 	case x < 40:
 		n := r.Intn(8)
-		in := &c19Input{Kind: "roundtrip"}
+		in := &c19Input{Kind: "roundtrip", Block: []int{0, 0, 16, 17, 23, 64, 100, 4096}[r.Intn(8)]}
 		for k := 0; k < n; k++ {
 			in.Items = append(in.Items, toRB(genBytes(r, genItemLen(r, i%10 == 0))))
 		}
@@ -287,10 +292,10 @@ func c19Gen(r *rand.Rand, i int) *c19Input {
 			s = append(s, genBytes(r, r.Intn(6))...)
 		}
 		s = clampPrefixes(s, ver)
-		return &c19Input{Kind: "read", Ver: ver, Stream: toRB(s)}
+		return &c19Input{Kind: "read", Ver: ver, Stream: toRB(s), Block: []int{0, 16, 19, 64}[r.Intn(4)]}
 	case x < 70:
 		// well-formed version-0 file
-		in := &c19Input{Kind: "read", Ver: 0}
+		in := &c19Input{Kind: "read", Ver: 0, Block: []int{0, 16, 19, 64}[r.Intn(4)]}
 		var buf bytes.Buffer
 		n := r.Intn(6)
 		for k := 0; k < n; k++ {
